@@ -115,7 +115,7 @@ def check_panel(case, ctx):
         pkg.compare_matrix(ctx, 'kT(0)==k0', KT0, K0, 1e-9, num=3, bucket=name + '.kT(0)')
         # infinitesimal states: fint(eps c) = eps K0 c + O(eps^2)
         r = []
-        for e in (1e-3, 5e-4):
+        for e in (1e-3, 5e-4, 2.5e-4):
             with package(name + '.fint'):
                 fe = _fint(p, e * c, nx, ny, Fn)
             r.append(np.max(np.abs(fe - e * K0.dot(c))))
@@ -125,9 +125,12 @@ def check_panel(case, ctx):
         # first-order term would leave a remainder that only halves.
         # rounding level of fint(eps c): eps_machine times the cancellation-free size |K0| |eps c| (K0 c itself may be small by cancellation)
         linabs = np.max(np.abs(K0).dot(np.abs(c))) or 1.
-        if r[0] > 1e-9 * linabs * 1e-3:
-            ctx.ok(r[1] <= 0.3 * r[0] + 1e-12 * linabs, name + '.small-state',
-                   'remainder does not shrink quadratically: %.3e -> %.3e' % (r[0], r[1]))
+        # The remainder is eps^2 |q + eps t| (quadratic and cubic parts, possibly of opposite sign): each halving of eps shrinks it
+        # by about 1/4 - except next to an eps where q + eps t happens to cancel.  A wrong first-order term shrinks it by 1/2 at every
+        # halving.  So at least one of two successive halvings must shrink it by less than 0.45.
+        if r[2] > 1e-9 * linabs * 1e-3:
+            ctx.ok(min(r[1] / r[0], r[2] / r[1]) <= 0.45, name + '.small-state',
+                   'remainder of fint(eps c) - eps K0 c shrinks like a first-order term: %.3e -> %.3e -> %.3e' % (r[0], r[1], r[2]))
     # 4. kT is the Jacobian of the package's own fint (Richardson central difference, exact for a cubic)
     rs = np.random.RandomState(case['dirseed'])
     dirs = [rs.uniform(-1, 1, own) for _ in range(3)]
